@@ -101,6 +101,7 @@ func (tree *RBTree) VerifCheck() (items []Item, nodes map[uint32]bool, err error
 	}
 	return items, nodes, nil
 }
+
 // VerifHibState exposes the hibernation fields; compressed buffers are returned decompressed.
 func (allocator *Allocator) VerifHibState() (storageNil, gapsNil bool, hibLen, hibGapsLen int, data [7][]uint32, dataNil [7]bool) {
 	storageNil = allocator.storage == nil
@@ -122,3 +123,6 @@ func (allocator *Allocator) VerifHibState() (storageNil, gapsNil bool, hibLen, h
 	}
 	return
 }
+
+// VerifMaxAllocatorSize is the storage length at which malloc refuses to grow.
+func VerifMaxAllocatorSize() uint64 { return negativeLimitNode - 1 }
